@@ -21,8 +21,10 @@ Descr(l) == CASE l = "sign"   -> {<<"kIdp1", "signing">>}
               [] l = "signAndEnc" -> {<<"kIdp1", "signing">>, <<"kIdp1b", "encryption">>}
               [] OTHER -> {}
 Issuers == {"idp1", "idp2", "unknown"}
+\* level "request": the same certificate selection on the other side -- an identity provider receiving a signed
+\* AuthnRequest; "idp1" / "idp2" then name two service providers in the receiver's metadata (the keys are just keys)
 Scn == [layout : Layouts, issuer : Issuers, signKey : Keys, embedded : Keys \cup {"none"},
-        flag : BOOLEAN, level : {"response", "assertion"}]
+        flag : BOOLEAN, level : {"response", "assertion", "request"}]
 
 VARIABLES scn, pc, certs, verdict
 vars == <<scn, pc, certs, verdict>>
